@@ -226,7 +226,12 @@ def build_instances(rng, dtype, batch, n):
     Rr, cv = ri(rng, (*batch, n, 2), dtype=dtype), ri(rng, (*batch, 1), 1, 3, dtype)
     out.append(X("LowRankRootAddedDiag[const]", lambda: LowRankRootAddedDiagLinearOperator(
         LowRankRootLinearOperator(cl(Rr)), ConstantDiagLinearOperator(cl(cv), n)), Rr @ Rr.mT + cv.unsqueeze(-1) * eye(n), f"lrrad {n} 2 0"))
-    perm = torch.stack([torch.tensor(rng.sample(range(n), n)) for _ in range(max(1, int(torch.Size(batch).numel())))]).reshape(*batch, n)
+    def _perm():
+        while True:
+            q = rng.sample(range(n), n)
+            if n == 1 or q != list(range(n)):
+                return torch.tensor(q)
+    perm = torch.stack([_perm() for _ in range(max(1, int(torch.Size(batch).numel())))]).reshape(*batch, n)
     out.append(X("Permutation", lambda: PermutationLinearOperator(perm.clone()), C.perm_matrix(perm, dtype), None, pd=False, tags=("perm",)))
     # ---- known-defect instances (D09, D10)
     A_l, A_u = L @ L.mT, U.mT @ U
@@ -616,6 +621,8 @@ def run(chk, only=None):
                             continue
                         if "ldt32" in cfgname and not (x.name.startswith("KroneckerAddedDiag") or x.name in ("Dense[psd]", "SumKronecker")):
                             continue
+                        if "perm" in x.tags and not (cfg.get("fast", True) and N > cfg.get("mc", defaults["mc"])):
+                            continue  # a permutation is not PD: only its own `_solve` (iterative branch) and inverse are in scope
                         rich = cfgname in ("default", "mc0|tol1e-6")
                         kinds = ["mat"]
                         if rich and dtype == F64:
